@@ -91,8 +91,10 @@ fn measure_tree(kind: TreeKind, ty: ElemTy, how: How, s: &[u128], tie: u64) -> (
 fn measure_bits(kind: BitsKind, path: u8, bits: &[bool], extra_capacity: usize) -> (BitsVal, usize) {
     let before = live();
     let v = if kind == BitsKind::Bvm && extra_capacity > 0 {
+        // reserved capacity, filled completely / half / a quarter / not at all
         let mut m = qwt::BitVectorMut::with_capacity(bits.len() + extra_capacity);
-        for &b in bits {
+        let take = match path % 4 { 0 => bits.len(), 1 => bits.len() / 2, 2 => bits.len() / 4, _ => 0 };
+        for &b in &bits[..take] {
             m.push(b);
         }
         BitsVal::Bvm(m)
@@ -110,10 +112,13 @@ fn measure_bits(kind: BitsKind, path: u8, bits: &[bool], extra_capacity: usize) 
 }
 
 fn measure_quads(kind: QuadKind, path: u8, q: &[u8]) -> (QuadVal, usize) {
-    let how = match path % 3 {
+    let how = match path % 5 {
         0 => QuadHow::FromQVector(IntTy::U8),
         1 => QuadHow::NewSlice(IntTy::U8),
-        _ => QuadHow::Collect(IntTy::U8),
+        2 => QuadHow::Collect(IntTy::U8),
+        // a builder whose capacity hint over-estimates the length (x2.25 / x8)
+        3 => QuadHow::Builder(9),
+        _ => QuadHow::Builder(32),
     };
     let before = live();
     let v = QuadVal::build(kind, how, q, 0);
@@ -221,6 +226,16 @@ impl Prop for C14 {
                 if ctx.nontrivial { fill(ctx, "bound", h as f64, bound); }
                 ensure!((h as f64) <= bound, "{}<{}> built with {:?}: retains {} bytes for n = {}, {} levels (max symbol {}); bound {:.0} bytes (ideal {:.0})",
                     kind.name(), ty.name(), how, h, n, levels, mx, bound, n as f64 * l / if kind.is_quad() { 4.0 } else { 8.0 });
+                // "prefetch support adds well under 1%": against the same tree without it
+                if kind.has_pfs() {
+                    let base = if kind == TreeKind::Qwt256Pfs { TreeKind::Qwt256 } else { TreeKind::Qwt512 };
+                    let (_t0, h0) = measure_tree(base, ty, how, &s, c.tie_seed);
+                    let extra = h as f64 - h0 as f64;
+                    let allowed = 0.006 * h0 as f64 + 1100.0 * l;
+                    ctx.label("pfs-differential");
+                    ensure!(extra <= allowed, "{}<{}>: prefetch support adds {:.0} bytes to the {} bytes of {} (n = {}, {} levels): more than 0.6% + 1100 B per level",
+                        kind.name(), ty.name(), extra, h0, base.name(), n, levels);
+                }
             }
             SpKind::Quad(kind) => {
                 let q: Vec<u8> = s.iter().map(|x| (*x & 3) as u8).collect();
@@ -282,6 +297,27 @@ impl Prop for C15 {
         "cases = (HQWT256/512(+Pfs) or HWT over u8/u16/u32, construction path, recipe with n = 2^k + d for k = 14..18 (20 thorough) or small n, alphabets of 1..256 symbols with max symbol <= 4095, profiles uniform/geometric/Zipf/one dominant/two frequent/Fibonacci/deepest-code/ties, tie seed); oracle = live heap bytes H of the Huffman tree <= (1+r+0.01) * n*(H0+2)/8 + K*levels + T (binary: 1.05 * n*(H0+1)/8 + 512*levels + T) with H0 computed from the input, and H <= heap of the plain tree built from the same input in the same process + K*levels + T; non-trivial = n >= 2^16 and H0 + 2 <= 0.75 * plain bits per symbol; distinct = hash of the case"
     }
     fn sample(&self, c: &SpaceCase) -> Value { abbreviate_space(c) }
+    fn fixed_cases(&self, tier: Tier) -> Vec<SpaceCase> {
+        // deepest supported codes (16 quad levels; 32 binary levels in the thorough tier)
+        let alpha: Vec<u128> = (0..64).collect();
+        let mk = |kind, ty, n, k, arr, seed| SpaceCase {
+            kind: SpKind::Tree(kind, ty), path: 1,
+            recipe: Recipe { n, alphabet: alpha.clone(), profile: Profile::Deep(k), arr, seed },
+            tie_seed: seed, extra_capacity: 0, bits: None,
+        };
+        let mut v = vec![
+            mk(TreeKind::Hqwt256, ElemTy::U8, 1_318_810, 4, Arr::Shuffled, 2),
+            mk(TreeKind::Hwt, ElemTy::U16, 300_000, 2, Arr::Shuffled, 3),
+            // long non-stationary inputs: several 2^20-symbol stretches with different mixes
+            mk(TreeKind::Hqwt512, ElemTy::U8, 3_000_000, 4, Arr::Sorted, 4),
+            mk(TreeKind::Hqwt256Pfs, ElemTy::U8, 2_500_000, 2, Arr::Padded(true, 7), 5),
+        ];
+        if tier == Tier::Thorough {
+            v.push(mk(TreeKind::Hwt, ElemTy::U8, 9_227_464, 2, Arr::Shuffled, 6));
+            v.push(mk(TreeKind::Hwt, ElemTy::U8, 8_400_000, 2, Arr::Padded(true, 7), 7));
+        }
+        v
+    }
     fn run(&self, c: &SpaceCase, ctx: &mut Ctx) -> CheckResult {
         need_allocator()?;
         let SpKind::Tree(kind, ty) = c.kind else { fail!("C15 case without a tree kind") };
